@@ -186,7 +186,7 @@ def run(ctx):
     ctx.assumptions += ["word counts below 65536 (16-bit field) - instructions beyond are skipped by the generator and excluded by hypothesis",
                         "generator encodes by the SPIR-V rules independently of rspirv and of the Lean model"]
     return C.finish(ctx, level="proof", checker_cmd="lake build Rspirv.Props.C02TypedInst + #print axioms",
-                    rule="every core opcode x every quantifier expansion (0..n optionals, variadic 0/1/3) x cycling through every enumerant of every value enum and every single mask bit + random combinations with their parameters, both literal widths for OpConstant/OpSpecConstant/OpSwitch, strings of every length mod 4; distinct non-trivial = distinct instructions",
+                    rule="every core opcode x every quantifier expansion (0..n optionals, variadic 0/1/3) x cycling through every enumerant of every value enum and every single mask bit + random combinations with their parameters, both literal widths for OpConstant/OpSpecConstant/OpSwitch, strings of every length mod 4; strings around every power of two up to 4097 bytes; OpSwitch selectors defined at module scope and inside a function body; implementation only: asm + parse at the largest expressible instruction sizes; distinct non-trivial = distinct instructions",
                     trusted=["hand models Parser.lean / Assemble.lean + differential harness", "translators"])
 
 
